@@ -364,6 +364,9 @@ class StreamResponse(
     async def _start(self, request: "BaseRequest") -> AbstractStreamWriter:
         self._req = request
         writer = self._payload_writer = request._payload_writer
+        # A head that another response left buffered on this writer is replaced
+        if (discard := getattr(writer, "discard_unsent_headers", None)) is not None:
+            discard()
 
         await self._prepare_headers()
         await request._prepare_hook(self)
